@@ -102,6 +102,7 @@ func VerifC02_GroupModBuckets() {
 
 func VerifC02_PacketOut() {
 	p := NewPacketOut()
+	p.BufferId = vr.U32("buffer") // data may accompany a buffered packet too
 	k := vr.IntRange("npacts", 0, 2)
 	for i := 0; i < k; i++ {
 		p.AddAction(buildActionShort(1))
@@ -148,6 +149,7 @@ func VerifC02_LateGrowth() {
 	case 0:
 		vr.Tag("container", "PacketOut")
 		p := NewPacketOut()
+		p.BufferId = vr.U32("buffer") // data may accompany a buffered packet too
 		p.AddAction(a)
 		grow()
 		c02walk(p)
